@@ -1,0 +1,26 @@
+//go:build verif
+
+package http2
+
+// Verification shims (build tag verif). They expose the block-level decoder
+// entry point the server uses, so a monitor outside the package can drive it
+// exactly as handleHeaderFrame does. Nothing here changes behaviour.
+
+// VerifNextField is nextField: one decoding step with explicit block context.
+func (hp *HPACK) VerifNextField(hf *HeaderField, blockStart bool, fieldsProcessed int, b []byte) ([]byte, error) {
+	return hp.nextField(hf, blockStart, fieldsProcessed, b)
+}
+
+// VerifDynamicTable returns the dynamic table, newest entry (index 62) first.
+func (hp *HPACK) VerifDynamicTable() [][2]string {
+	out := make([][2]string, 0, len(hp.dynamic))
+	for i := len(hp.dynamic) - 1; i >= 0; i-- {
+		out = append(out, [2]string{string(hp.dynamic[i].key), string(hp.dynamic[i].value)})
+	}
+	return out
+}
+
+// VerifLimits returns the current table limit and the limit set by SETTINGS.
+func (hp *HPACK) VerifLimits() (cur, settings uint32) {
+	return hp.maxTableSize, hp.maxTableSizeSettings
+}
